@@ -23,10 +23,13 @@ def kFwd : Bytes := str "forwarded-tcpip"
 
 /-- the client's own actions that (un)install handlers -/
 inductive Action
-  | requestX11 (granted : Bool)        -- Channel.request_x11: handler installed after the server's CHANNEL_SUCCESS
+  | requestX11 (granted : Bool)        -- Channel.request_x11: handler installed after the server's CHANNEL_SUCCESS;
+                                       -- granted = false: CHANNEL_FAILURE, or the channel / connection ended first
   | requestForwardAgent                -- Channel.request_forward_agent: installed unconditionally (no reply wanted)
   | requestPortForward (granted : Bool)  -- Transport.request_port_forward: installed iff the server granted it
   | cancelPortForward                  -- Transport.cancel_port_forward: uninstalled first, then the request is sent
+  | otherRequest (granted : Bool)      -- any other channel request of the client (get_pty, exec_command, invoke_shell,
+                                       -- …), granted or not: installs nothing
   deriving Repr, DecidableEq
 
 /-- what the server sends on its own initiative -/
@@ -77,6 +80,7 @@ def perform (s : St) : Action → St
   | .requestForwardAgent => { s with agent := true }
   | .requestPortForward granted => if granted then { s with fwd := true } else s
   | .cancelPortForward => { s with fwd := false }
+  | .otherRequest _ => s
 
 def step (s : St) : Event → St × Reply
   | .act a => (perform s a, .none)
